@@ -100,6 +100,9 @@ def ops_table(mpc, T):
     op('in_prod_self', 2, lambda a, b: [mpc.in_prod([a, b], [a, b])], lambda a, b: [a * a + b * b], 3)
     op('vector_add', 3, lambda a, b, c: mpc.vector_add([a, b], [c, a]), lambda a, b, c: [a + c, b + a], 0)
     op('vector_add_pub', 2, lambda a, b: mpc.vector_add([a, b], [1, 2]), lambda a, b: [a + 1, b + 2], 0)
+    # public integers in the FIRST operand too (not at position 0: the type is taken from x[0])
+    op('vector_add_pub_x', 2, lambda a, b: mpc.vector_add([a, 1], [2, b]), lambda a, b: [a + 2, 1 + b], 0)
+    op('vector_sub_pub_x', 2, lambda a, b: mpc.vector_sub([a, 3], [1, b]), lambda a, b: [a - 1, 3 - b], 0)
     op('vector_sub', 3, lambda a, b, c: mpc.vector_sub([a, b], [c, a]), lambda a, b, c: [a - c, b - a], 0)
     op('scalar_mul', 3, lambda a, b, c: mpc.scalar_mul(a, [b, c]), lambda a, b, c: [a * b, a * c], 2)
     op('schur_prod', 3, lambda a, b, c: mpc.schur_prod([a, b], [c, a]), lambda a, b, c: [a * c, b * a], 2)
